@@ -19,7 +19,7 @@ def map_oracle(name, est, y_seen, where, replay):
     fails = []
     mp, la = est.map, [int(v) for v in est.module_a.labels_]
     lb = [int(v) for v in est.labels_b] if name == "ARTMAP" else [int(v) for v in est.labels_]
-    nA = len(est.module_a.W)
+    nA = int(est.module_a.n_clusters)      # = number of A-side categories; for DualVigilanceART the map is keyed by cluster label
 
     def f(what, sig):
         fails.append({"signature": f"{name}/{sig}", "text": f"{name} {where}: {what}", "replay": replay})
@@ -72,6 +72,46 @@ def s_oracle(c):
         if fails:
             return fails
     return fails
+
+
+def gen_nested_scase(rng):
+    """SimpleARTMAP over every elementary module (float data) and over DualVigilanceART / FusionART (grid data)"""
+    from fractions import Fraction
+    wrap = rng.choice(["K", "K", "DV", "DV", "Fusion"])
+    if wrap == "K":
+        k, rows = B.gen_any_kernel_and_rows(rng)
+    elif wrap == "DV":
+        kb, rows = B.gen_kernel_and_rows(rng, rng.choice(["Fuzzy", "Fuzzy", "ART2A"]), nmax=13)
+        if kb["rho"] == 0:
+            kb["rho"] = Fraction(rng.randrange(1, 9), 8)
+        k = {"kind": "DV", "base": kb, "lb": Fraction(rng.randrange(0, int(kb["rho"] * 8)), 8), "rho": kb["rho"]}
+    else:
+        n = rng.randrange(3, 13)
+        ds = [rng.choice([1, 2]) for _ in range(2)]
+        mods = [{"kind": "Fuzzy", "rho": Fraction(rng.choice([0, 2, 4, 6, 7]), 8), "alpha": Fraction(1, 1024), "beta": rng.choice([Fraction(1), Fraction(1, 2)])} for _ in ds]
+        parts = [B.grid_rows(rng, n, d) for d in ds]
+        rows = [list(parts[0][i]) + list(parts[1][i]) for i in range(n)]
+        k = {"kind": "Fusion", "mods": mods, "gammas": [Fraction(1, 2), Fraction(1, 2)], "dims": [2 * d for d in ds], "rho": 0}
+    c = S.gen_scase(rng)
+    ncls = rng.choice([2, 2, 3])
+    idx = list(range(len(rows)))
+    shape = rng.choice(["fit", "fit2", "pf", "fit+pf", "fit+fit", "pf1"])
+    if shape == "fit":
+        ops = [("fit", idx, 1)]
+    elif shape == "fit2":
+        ops = [("fit", idx, 2)]
+    elif shape == "pf":
+        ops = [("partial_fit", b, 1) for b in B.split_batches(rng, idx, rng.randrange(1, 4))]
+    elif shape == "pf1":
+        ops = [("partial_fit", [i], 1) for i in idx[:7]]
+    elif shape == "fit+pf":
+        h = max(1, len(idx) // 2)
+        ops = [("fit", idx[:h], 1), ("partial_fit", idx[h:] or idx[:1], 1)]
+    else:
+        h = max(1, len(idx) // 2)
+        ops = [("fit", idx[:h], 1), ("fit", list(reversed(idx)), 1)]
+    ops.append(("predict", [rng.randrange(len(rows)) for _ in range(rng.randrange(1, 5))], 0))
+    return {"k": k, "rows": rows, "y": [rng.randrange(ncls) for _ in rows], "mode": c["mode"], "eps": c["eps"], "ops": ops}
 
 
 def a_oracle(c):
@@ -138,6 +178,15 @@ def main():
         strs_a.append(S.acase_coq(c, obs))
         summ_a.append(S.summary_a(c))
         fails.extend(a_oracle(c))
+    # every module (and DualVigilanceART / FusionART) as A-side: implementation-side map oracle
+    rng_n = C.make_rng(seed, "C09-nested")
+    n_nested = 300 if tier == "quick" else 3000
+    nested_kinds = {}
+    for _ in range(n_nested):
+        c = gen_nested_scase(rng_n)
+        kk = c["k"]["kind"]
+        nested_kinds[kk] = nested_kinds.get(kk, 0) + 1
+        fails.extend(s_oracle(c))
     codes_a, bad_a = flow.coq_corr("C09a", "RunSam", strs_a, check_fn="acheck", extra_imports="From ARTcorr Require Import RunBase.\n")
     for b in bad_s + bad_a:
         v.notes.append("coq shard failed: " + b[-600:])
@@ -157,6 +206,7 @@ def main():
                 "(contradictory labels on identical samples frequent), 5 modes x eps, fit with 1-3 epochs / partial_fit batchings / re-fits, interleaved predict_ab; "
                 "non-trivial = distinct case with >= 2 A-side categories",
         "traces_validated_against_impl": sum(1 for x in codes_s + codes_a if x == 0),
+        "nested_a_side_oracle_cases": n_nested, "nested_a_side_kinds": nested_kinds,
         "distribution": stats, "samples": summ[:1] + summ_a[:1]})
     v.assumptions = ["A-side kernels Fuzzy/ART2A in the exact regime; other kernels share the kernel-abstract theorem",
                      "ARTMAP with max_iter = 1"]
